@@ -126,6 +126,9 @@ def _normalize_pad_width(
                         " sequence of pad widths along each"
                         " direction.")
 
+    if any(before < 0 or after < 0 for before, after in processed_pad_widths):
+        raise ValueError("pad widths cannot be negative")
+
     return processed_pad_widths
 
 
